@@ -4,7 +4,8 @@ import OpcuaVerif.Lemmas.C05
 C05 — Relative path strings round-trip and parse safely.  Property theorems only; model
 `OpcuaVerif.Model.C05` (+ regenerated `Generated.RefTypes`), lemmas `OpcuaVerif.Lemmas.C05`.
 
-`current` is the source after the two `fix:` commits (namespace regex `[0-9]+`, `(?s)`).
+`current` is the source after the four `fix:` commits (namespace regex `[0-9]+`, `(?s)`, reference type
+names unescaped, bracketed name ends at the first unescaped `>`).
 The parser model is `Option`-valued: the modelled parse path has no panic site (no slicing, the
 `unwrap`s are on captures that always participate, the `panic!` arm for flags is unreachable), so
 "parsing never panics" holds by construction of the model and is tied by correspondence.
@@ -52,11 +53,12 @@ theorem print_panics_iff (es : List Elem) :
         have : ¬ ∃ e ∈ es, browseName e.ref = none := fun h => by rw [ih.mpr h] at hp; cases hp
         simp [this]
 
-/-- **Paths** (PARTIAL, see `GoodElem`): up to 32 elements; every reference type resolvable with a
-plain browse name (the 27 standard types by numeric id, or string ids without reserved characters),
-both flags arbitrary; every target namespace 0..65535 and every non-empty target name over any
-alphabet, except `>` after a bracketed reference type; each element's text within the 256-byte token
-limit.  Outside this class the code does not round-trip (recorded findings with counterexamples). -/
+/-- **Paths** (PARTIAL only in the sense of `GoodElem`): up to 32 elements; every reference type that has
+a browse name (the 27 standard types by numeric id, or a string id with ANY non-empty name — reserved
+characters, `>`, non-ASCII — that in namespace 0 is not a standard name), both flags arbitrary; every
+target namespace 0..65535 and every non-empty target name over any alphabet; each element's text within
+the 256-byte token limit.  What remains outside is format-inherent (recorded findings with counterexamples):
+null/empty names, unresolvable reference types (printer panic), the namespace-0 name collision. -/
 theorem path_roundtrip_partial (es : List Elem) (hlen : es.length ≤ maxElements)
     (hgood : ∀ e ∈ es, ∃ bn, GoodElem e bn)
     (hfit : ∀ e ∈ es, ∀ t, printElem e = some t → utf8Len t ≤ maxTokenLen) :
@@ -83,14 +85,12 @@ theorem path_roundtrip_partial (es : List Elem) (hlen : es.length ≤ maxElement
 
 /-! ### non-vacuity -/
 
-example : GoodElem ⟨⟨0, .numeric 33⟩, false, true, ⟨65535, some ['a', '&', '/', '>', 'é', '\n']⟩⟩
-    (['H', 'i', 'e', 'r', 'a', 'r', 'c', 'h', 'i', 'c', 'a', 'l'] ++ ['R', 'e', 'f', 'e', 'r', 'e', 'n', 'c', 'e', 's']) := by
-  refine ⟨GoodRef.std 33 _ (by decide), ⟨by decide, by simp, by simp⟩, ?_⟩
-  intro h; exact absurd ⟨rfl, rfl, rfl⟩ h
-example : GoodElem ⟨⟨7, .str (some ['M', 'y', ' ', 'T', 'y', 'p', 'e'])⟩, true, false, ⟨10, some ['x', '.', 'y']⟩⟩
-    ['M', 'y', ' ', 'T', 'y', 'p', 'e'] := by
-  refine ⟨GoodRef.str 7 _ (by decide) ⟨by simp, by decide⟩ (by simp), ⟨by decide, by simp, by simp⟩, ?_⟩
-  intro _ _ n hn; cases hn; decide
+example : GoodElem ⟨⟨0, .numeric 47⟩, true, false, ⟨65535, some ['a', '&', '/', '>', 'é', '\n']⟩⟩
+    ['H', 'a', 's', 'C', 'o', 'm', 'p', 'o', 'n', 'e', 'n', 't'] :=
+  ⟨GoodRef.std 47 _ (by decide), ⟨by decide, by simp, by simp⟩⟩
+example : GoodElem ⟨⟨7, .str (some ['a', '.', '>', ':', 'b'])⟩, true, false, ⟨10, some ['x', '>', 'y']⟩⟩
+    ['a', '.', '>', ':', 'b'] :=
+  ⟨GoodRef.str 7 _ (by decide) (by simp) (by simp), ⟨by decide, by simp, by simp⟩⟩
 example : parsePath (['<', '#', '!', '2', ':', 'M', 'y', '>', '1', '0', ':', 'a', '&', '.', 'b']) =
     some [⟨⟨2, .str (some ['M', 'y'])⟩, true, false, ⟨10, some ['a', '.', 'b']⟩⟩] := by decide
 
@@ -103,27 +103,33 @@ theorem C05_counterexample_ns10_pinned :
 
 /-- pinned regexes without `(?s)`: a target name is cut at a newline -/
 theorem C05_counterexample_newline_pinned :
-    parsePathWith ⟨true, false⟩ ['/', '1', ':', 'a', '\n', 'b'] = some [⟨⟨0, .numeric 33⟩, false, true, ⟨1, some ['a']⟩⟩] := by
+    parsePathWith ⟨true, false, false, false⟩ ['/', '1', ':', 'a', '\n', 'b'] = some [⟨⟨0, .numeric 33⟩, false, true, ⟨1, some ['a']⟩⟩] := by
   decide
 
-/-! ### recorded findings of the current source -/
-
-/-- printing a path whose reference type has no browse name panics (numeric id outside the table /
+/-- (recorded) printing a path whose reference type has no browse name panics (numeric id outside the table /
 in another namespace / guid) -/
 theorem C05_counterexample_print_panics :
     printPath (some [⟨⟨0, .numeric 129⟩, false, true, ⟨0, some ['x']⟩⟩]) = none ∧
     printPath (some [⟨⟨3, .numeric 47⟩, false, true, ⟨0, some ['x']⟩⟩]) = none := by decide
 
-/-- a reference type browse name with a reserved character comes back still escaped -/
-theorem C05_counterexample_reftype_escaped :
-    (printPath (some [⟨⟨2, .str (some ['a', '.', 'b'])⟩, false, true, ⟨0, some ['x']⟩⟩])).bind parsePath =
+/-- pinned: a reference type browse name with a reserved character came back still escaped -/
+theorem C05_counterexample_reftype_escaped_pinned :
+    (printPath (some [⟨⟨2, .str (some ['a', '.', 'b'])⟩, false, true, ⟨0, some ['x']⟩⟩])).bind
+        (parsePathWith ⟨true, true, false, false⟩) =
       some [⟨⟨2, .str (some ['a', '&', '.', 'b'])⟩, false, true, ⟨0, some ['x']⟩⟩] := by decide
 
-/-- `>` in a target name after a bracketed reference type is taken for the closing bracket -/
-theorem C05_counterexample_gt_in_target :
-    (printPath (some [⟨⟨0, .numeric 34⟩, false, true, ⟨1, some ['a', '>', 'b']⟩⟩])).bind parsePath =
+/-- pinned: `>` in a target name after a bracketed reference type was taken for the closing bracket -/
+theorem C05_counterexample_gt_in_target_pinned :
+    (printPath (some [⟨⟨0, .numeric 34⟩, false, true, ⟨1, some ['a', '>', 'b']⟩⟩])).bind
+        (parsePathWith ⟨true, true, true, false⟩) =
       some [⟨⟨0, .str (some ['H', 'a', 's', 'C', 'h', 'i', 'l', 'd', '>', '1', ':', 'a', '&'])⟩, false, true, ⟨0, some ['b']⟩⟩] := by
   decide
+
+/-- both now round-trip -/
+example : (printPath (some [⟨⟨2, .str (some ['a', '.', '>', 'b'])⟩, false, true, ⟨1, some ['a', '>', 'b']⟩⟩])).bind parsePath =
+    some [⟨⟨2, .str (some ['a', '.', '>', 'b'])⟩, false, true, ⟨1, some ['a', '>', 'b']⟩⟩] := by decide
+
+/-! ### recorded findings of the current source -/
 
 /-- empty / null names are not distinguished: empty target name → null; null name loses its namespace;
 an empty reference type name is misread -/
